@@ -121,3 +121,78 @@ Proof.
   split; [reflexivity|]. split; [reflexivity|].
   exists apropos_ex2, p_dp. split; vm_compute; reflexivity.
 Qed.
+
+(* ---- third witness (D28): before fix a3fd6a3 an "enabled by" entry that names a
+   port INSIDE the sub-tree it enables ("s/on" on "s/") was a dependency of
+   every message below "/s" - also of "/s/on" itself.  Without a line for
+   "/s/on" the scan continued at "/s/on", whose parent names "/s/on" again:
+   it never ended (stack overflow while loading).  With a line, "/s/on" was
+   recorded as waiting for itself and dropped by the sort. *)
+Section Old3.
+  Variable apropos : str -> option pmeta.
+  Variable keys : list str.
+  Fixpoint scan_deps_old3 (fuel : nat) (cur : str) : option (list str) :=
+    match fuel with
+    | O => None
+    | S f =>
+        fold_left
+          (fun acc (ic : bool * str) =>
+             let c := snd ic in
+             match apropos (if fst ic then c ++ [slash] else c) with
+             | None => acc
+             | Some m =>
+                 fold_left
+                   (fun acc e =>
+                      match acc, rel2abs e c with
+                      | Some l, Some a =>
+                          if has_key keys a then Some (l ++ [a])
+                          else match scan_deps_old3 f a with
+                               | Some l' => Some (l ++ l')
+                               | None => None
+                               end
+                      | _, _ => None
+                      end)
+                   (dep_values m) acc
+             end)
+          (flagged (ancestors cur)) (Some [])
+    end.
+End Old3.
+
+Definition p_s   : str := [47; 115; 47].                 (* /s/   *)
+Definition p_son : str := [47; 115; 47; 111; 110].       (* /s/on *)
+Definition p_sx  : str := [47; 115; 47; 120].            (* /s/x  *)
+Definition p_sp  : str := [47; 115; 47; 112].            (* /s/p  *)
+Definition apropos_ex3 (p : str) : option pmeta :=
+  if str_eqb p p_s then Some {| enabled_by := Some [115; 47; 111; 110]; depends := None; default_depends := None |}
+  else if str_eqb p p_son then Some none_meta
+  else if str_eqb p p_sx then Some none_meta
+  else None.
+
+Theorem inner_switch_before_fix_refuted :
+  (* no line for the switch: the old scan of "/s/x" does not end, the fixed one finds no dependency *)
+  scan_deps_old3 apropos_ex3 [p_sx] 60 p_sx = None /\
+  scan_deps apropos_ex3 [p_sx] 60 p_sx p_sx = Some [] /\
+  (* a line for the switch: the old scan makes it wait for itself, the fixed one makes "/s/x" wait for it only *)
+  scan_deps_old3 apropos_ex3 [p_son; p_sx] 60 p_son = Some [p_son] /\
+  scan_deps apropos_ex3 [p_son; p_sx] 60 p_son p_son = Some [] /\
+  scan_deps apropos_ex3 [p_son; p_sx] 60 p_sx p_sx = Some [p_son].
+Proof. repeat split; vm_compute; reflexivity. Qed.
+
+(* ---- what remains (D31, notes/C12.md stage 4): metadata that is cyclic.  The switch
+   inside the sub-tree declares a dependency on a port of that sub-tree
+   ("/s/on" depends on "p"; "/s/p" lies below "/s/", enabled by "/s/on"): every
+   order is wrong for one of the two, and without lines for them the scan - also
+   the fixed one - does not end.  C13_topo excludes it ([pushes = Some _], [ranked]). *)
+Definition apropos_ex4 (p : str) : option pmeta :=
+  if str_eqb p p_s then Some {| enabled_by := Some [115; 47; 111; 110]; depends := None; default_depends := None |}
+  else if str_eqb p p_son then Some {| enabled_by := None; depends := Some [112; 44]; default_depends := None |}
+  else if str_eqb p p_sp then Some none_meta
+  else if str_eqb p p_sx then Some none_meta
+  else None.
+
+Theorem cyclic_metadata_scan_does_not_end :
+  scan_deps apropos_ex4 [p_sx] 200 p_sx p_sx = None /\
+  (* with lines for both ports of the cycle the scan ends and each waits for the other *)
+  scan_deps apropos_ex4 [p_son; p_sp] 200 p_son p_son = Some [p_sp] /\
+  scan_deps apropos_ex4 [p_son; p_sp] 200 p_sp p_sp = Some [p_son].
+Proof. repeat split; vm_compute; reflexivity. Qed.
